@@ -362,6 +362,36 @@ def r3_parameters(repo, report):
     raises = [src(n.test) for n in ast.walk(fn) if isinstance(n, ast.If) and any(isinstance(x, ast.Raise) for x in n.body)]
     ok = any("'optional' in result and 'required' in result" in t_ for t_ in raises) and any("'indels' in result and 'noindels' in result" in t_ for t_ in raises) and any("key in result" in t_ for t_ in raises) and any("key not in allowed_parameters" in t_ for t_ in raises)
     report.ob("C18.R3", "contradictory / unknown / repeated parameters raise", ok, facts={"guards": raises}, expected="unknown key, key given twice, optional+required, indels+noindels", loc=repo.loc(fn))
+    # the part after the parsing loop, explored as a decision table over which of the four flag keys were given
+    body_ = strip_docstring(fn.body)
+    last_loop = max((i_ for i_, st_ in enumerate(body_) if isinstance(st_, ast.For)), default=None)
+    rets_ = [st_ for st_ in body_ if isinstance(st_, ast.Return)]
+    if last_loop is None or not rets_ or not isinstance(rets_[-1].value, ast.Name):
+        report.unrecognised("C18.R3", "flag conflicts", "parse_search_parameters: loop / returned dictionary not found", repo.loc(fn))
+    else:
+        res_ = rets_[-1].value.id
+        rows_ = explore(repo, body_[last_loop + 1:], {res_: Obj("RESULT", nonnull=True)}, inline=False)
+        roles_ = {k_: Bool(f"in:'{k_}':RESULT") for k_ in ("optional", "required", "indels", "noindels")}
+
+        def out_(r):
+            if r.exit[0] == "raise":
+                return "raise"
+            return tuple(sorted((e[0], str(e[1]).replace(res_ + "[", "RESULT["), str(e[2])) for e in r.effects if e[0] in ("store", "del")))
+
+        def exp_(rv):
+            if (rv["optional"] and rv["required"]) or (rv["indels"] and rv["noindels"]):
+                return "raise"
+            eff = []
+            if rv["optional"]:
+                eff += [("store", "RESULT['required']", "False"), ("del", "RESULT['optional']", "")]
+            if rv["noindels"]:
+                eff += [("store", "RESULT['indels']", "False"), ("del", "RESULT['noindels']", "")]
+            return tuple(sorted(eff))
+
+        mism_, n_, _d = check_table(rows_, roles_, exp_, out_)
+        report.ob("C18.R3", "parse_search_parameters: flag conflicts and conversions", not mism_, facts={"rows": len(rows_), "mismatches": mism_[:2]}, cases=n_, loc=repo.loc(fn),
+                  expected="optional+required and indels+noindels raise; otherwise optional -> required=False, noindels -> indels=False (and the converted key is removed)",
+                  why=(f"for {mism_[0]['inputs']} the code does {mism_[0]['code']}, expected {mism_[0]['expected']}" if mism_ else ""))
     # value conversion: int, else float, empty -> True
     tr = [n for n in ast.walk(fn) if isinstance(n, ast.Try)]
     ok = len(tr) == 1 and src(tr[0].body[0]) == "value = int(value)" and src(tr[0].handlers[0].body[0]) == "value = float(value)" and chain(tr[0].handlers[0].type) == "ValueError"
